@@ -2,7 +2,7 @@
 from harness import exchange_check as xc
 
 TRUSTED_EXTRA = xc.TRUSTED_EXTRA
-PLAN = [('loans', 'medium', 90, 2200), ('margin', 'small', 60, 1500)]
+PLAN = [('loans', 'medium', 90, 2200), ('margin', 'small', 60, 1500), ('cancelrepay', 'small', 40, 600), ('nearequal', 'small', 12, 150)]
 
 
 def run(chk):
